@@ -10,7 +10,7 @@
    FDup (response duplicated), FStale fr (stale frame between request and response).
    [sdo_error r]: r is SdoCommunicationError or SdoAbortedError. *)
 From Coq Require Import ZArith List Bool Lia.
-From CV Require Import Base.Val Base.Bytes Base.Tys Gen.Tables Model.RefServer Model.SdoClient Proofs.SdoClient_proofs.
+From CV Require Import Base.Val Base.Bytes Base.Tys Gen.Tables Model.RefServer Model.SdoClient Proofs.SdoClient_proofs Gen.SrcC01 Proofs.Src_eq_c01.
 Import ListNotations.
 Open Scope Z_scope.
 
@@ -162,6 +162,73 @@ Example C07_nv_outcomes :
   snd (sdo_upload net_step FUEL (disturb w 0 (FReplace [[128; 0; 32; 0; 0; 0; 2; 6]]) []) 8192 0 None) = Abort 100794368.
 Proof. vm_compute. repeat split; try reflexivity. auto 20. Qed.
 
+(* ---- Tie (c): source text -> model.  Gen/SrcC01.v is regenerated from the text of canopen/sdo/client.py on every run
+   (tools/tables/src_c01.py): WritableStream.__init__ / write / close and ReadableStream.__init__ / read as state
+   skeletons (which branch, byte 0 of the request, payload bytes copied, _toggle / _done / _error / pos / size
+   afterwards, which exception).  The *_from_src functions (Proofs/Src_eq_c01.v) are the model functions rebuilt around
+   those skeletons: the only decisions left outside the translated text are struct packing, the request/response
+   exchange and slicing.  The model the theorems above speak about IS what the current source text says. ---- *)
+Theorem C07_src_ws_init : forall (S : Type) (peer : S -> frame -> S * list frame) (w : world) idx sub size force,
+  ws_init peer w idx sub size force = ws_init_from_src peer w idx sub size force.
+Proof. exact @src_ws_init_eq. Qed.
+
+Theorem C07_src_ws_write : forall (S : Type) (peer : S -> frame -> S * list frame) (w : world) st b,
+  ws_write peer w st b = ws_write_from_src peer w st b.
+Proof. exact @src_ws_write_eq. Qed.
+
+Theorem C07_src_ws_close : forall (S : Type) (peer : S -> frame -> S * list frame) (w : world) st,
+  ws_close peer w st = ws_close_from_src peer w st.
+Proof. exact @src_ws_close_eq. Qed.
+
+Theorem C07_src_rs_init : forall (S : Type) (peer : S -> frame -> S * list frame) (w : world) idx sub,
+  rs_init peer w idx sub = rs_init_from_src peer w idx sub.
+Proof. exact @src_rs_init_eq. Qed.
+
+Theorem C07_src_rs_read : forall (S : Type) (peer : S -> frame -> S * list frame) (f : nat) (w : world) st size,
+  0 <= size ->
+  rs_read peer (Datatypes.S f) w st = rs_read_from_src peer (rs_read peer f) w st size.
+Proof. exact @src_rs_read_eq. Qed.
+
+(* the exchange itself: which frame is awaited, when the queue is replaced, that ONE request is sent, and that a missing
+   response is answered by the abort frame [0x80, 0, 0, 0, code little-endian] with the code in the source text (0x05040000)
+   after MAX_RETRIES (regenerated: SDO_MAX_RETRIES) attempts *)
+Theorem C07_src_request_response : forall (S : Type) (peer : S -> frame -> S * list (frame)) (w : world) req,
+  request_response peer w req = request_response_from_src peer w req.
+Proof. exact @src_request_response_eq. Qed.
+
+Theorem C07_src_read_response : forall (S : Type) (w : @world S), read_response w = read_response_from_src w.
+Proof. exact @src_read_response_eq. Qed.
+
+Theorem C07_src_abort_frame : forall code, abort_frame code = abort_frame_from_src code.
+Proof. exact src_abort_eq. Qed.
+
+Theorem C07_src_upload_truncation : forall odt response_size data,
+  truncate odt response_size data = truncate_from_src odt response_size data.
+Proof. exact src_upload_eq. Qed.
+
+(* non-vacuity of the tie: the skeletons on concrete states.  A 10-byte download of declared size: initiate byte 0x21;
+   second segment (3 bytes at pos 7, toggle 0x10) has byte 0 = 0x10 | (7-3)<<1 | 1 = 0x19 and completes the stream;
+   close() of an unfinished stream of unknown size sends 0x0F | toggle; an expedited upload response 0x4B (e, s, n=2)
+   gives size 2; a final 2-byte upload segment 0x1B with toggle 0x10. *)
+Example C07_nv_src :
+  src_ws_init true 10 false false 96 = (1, 33, true, false, false, false, 0, 0) /\
+  src_ws_init true 3 false false 96 = (1, 39, false, true, false, false, 0, 0) /\
+  src_ws_write false false false true 10 7 16 3 false 48 0 0 false = (1, 25, 3, 0, true, false, 10, 3) /\
+  src_ws_write false false false true 10 7 16 3 true 0 0 0 false = (6, 25, 3, 16, true, true, 7, 0) /\
+  src_ws_close false false 16 false 0 = (true, 31, true) /\
+  src_rs_init 8192 1 75 8192 1 4 0 false 0 0 = (1, true, 2, 1, 2, 0, false) /\
+  src_rs_read false false 7 false false 16 7 27 0 0 = (7, 112, 0, true, 9, 2).
+Proof. vm_compute. repeat split; reflexivity. Qed.
+
+(* a lost response with an empty queue: one request sent, then the abort 0x05040000; a stale frame in the queue is
+   dropped first; an abort frame from the server (0x80) raises SdoAbortedError *)
+Example C07_nv_src_exchange :
+  src_request_response SDO_MAX_RETRIES true true false 0 0 = (2, false, 1, 84148224, 0) /\
+  src_request_response SDO_MAX_RETRIES false false false 0 0 = (1, true, 1, 0, 1) /\
+  src_read_response false 128 = 1 /\ src_read_response false 96 = 2 /\ src_read_response true 0 = 0 /\
+  abort_frame_from_src 84148224 = [128; 0; 0; 0; 0; 0; 4; 5].
+Proof. vm_compute. repeat split; reflexivity. Qed.
+
 Print Assumptions C07_disturbed_download.
 Print Assumptions C07_disturbed_buffered_download.
 Print Assumptions C07_failed_initiation_silent.
@@ -173,3 +240,12 @@ Print Assumptions C07_lost_response_aborts_upload.
 Print Assumptions C07_next_transfer_clean_download.
 Print Assumptions C07_next_transfer_clean_upload.
 Print Assumptions C07_next_transfer_clean_any.
+Print Assumptions C07_src_ws_init.
+Print Assumptions C07_src_ws_write.
+Print Assumptions C07_src_ws_close.
+Print Assumptions C07_src_rs_init.
+Print Assumptions C07_src_rs_read.
+Print Assumptions C07_src_upload_truncation.
+Print Assumptions C07_src_request_response.
+Print Assumptions C07_src_read_response.
+Print Assumptions C07_src_abort_frame.
